@@ -29,6 +29,20 @@ const (
 // client once the error has been written indicating the end of a command cycle.
 // https://www.postgresql.org/docs/current/static/protocol-error-fields.html
 func ErrorCode(writer *buffer.Writer, err error) error {
+	err = writeErrorResponse(writer, err)
+	if err != nil {
+		return err
+	}
+
+	// NOTE: we are writing a ready for query message to indicate the end of a
+	// command cycle.
+	return readyForQuery(writer, types.ServerIdle)
+}
+
+// writeErrorResponse writes the given error as a single ErrorResponse message.
+// No ready for query message is written. Within the extended query protocol
+// the ready for query message is only written as response to a Sync message.
+func writeErrorResponse(writer *buffer.Writer, err error) error {
 	desc := psqlerr.Flatten(err)
 
 	writer.Start(types.ServerErrorResponse)
@@ -70,12 +84,5 @@ func ErrorCode(writer *buffer.Writer, err error) error {
 	}
 
 	writer.AddNullTerminate()
-	err = writer.End()
-	if err != nil {
-		return err
-	}
-
-	// NOTE: we are writing a ready for query message to indicate the end of a
-	// command cycle.
-	return readyForQuery(writer, types.ServerIdle)
+	return writer.End()
 }
